@@ -838,7 +838,7 @@ impl Sim<'_> {
                             let mut next = Vec::new();
                             for c in &combos {
                                 for x in o {
-                                    if next.len() < 16 {
+                                    if next.len() < 512 {
                                         let mut v = c.clone();
                                         v.push(x.clone());
                                         next.push(v);
